@@ -631,6 +631,11 @@ func (b *Builder) of1(v ssa.Value, at ssa.Instruction, depth int) *Term {
 		if init, step, ok := inductionPhi(x); ok {
 			return b.mk("ind", step, v, b.of(init, at, depth+1))
 		}
+		if init, k, ok := cursorPhi(x); ok {
+			// rest = rest[k:] per iteration: the view of the initial slice / string from the k-step counter on
+			lo := &Term{Op: "ind", Name: "+" + k, Args: []*Term{{Op: "const", Name: "0", C: constant.MakeInt64(0)}}}
+			return canonSlice(b.mk("slice", "", v, b.of(init, at, depth+1), lo, &Term{Op: "none"}))
+		}
 		var args []*Term
 		seen := map[string]bool{}
 		for _, e := range x.Edges {
@@ -670,7 +675,12 @@ func (b *Builder) of1(v ssa.Value, at ssa.Instruction, depth int) *Term {
 		}
 		return canonSlice(b.mk("slice", "", v, args...))
 	case *ssa.IndexAddr:
-		return b.mk("iaddr", "", v, b.of(x.X, at, depth+1), b.of(x.Index, at, depth+1))
+		xt, it := b.of(x.X, at, depth+1), b.of(x.Index, at, depth+1)
+		if _, isCur := x.X.(*ssa.Phi); isCur && xt.Op == "slice" && len(xt.Args) == 3 && xt.Args[1].Op == "ind" {
+			// an element of a front-consumed view: rest[j] is init[i+j]
+			return b.mk("iaddr", "", v, xt.Args[0], canonBin(&Term{Op: "bin", Name: "+", V: x.Index, Args: []*Term{xt.Args[1], it}}))
+		}
+		return b.mk("iaddr", "", v, xt, it)
 	case *ssa.Index:
 		xt := b.of(x.X, at, depth+1)
 		if xt.Op == "load" && len(xt.Args) == 1 {
@@ -777,6 +787,32 @@ func (b *Builder) logicalPhi(x *ssa.Phi, at ssa.Instruction, depth int) *Term {
 }
 
 // inductionPhi recognises phi(init, phi±c): a counter with constant step.
+// cursorPhi: p = phi(init, p[k:]) with a positive constant k — a slice or string consumed from the front.
+func cursorPhi(p *ssa.Phi) (init ssa.Value, k string, ok bool) {
+	if len(p.Edges) != 2 {
+		return nil, "", false
+	}
+	for i, e := range p.Edges {
+		sl, isSl := e.(*ssa.Slice)
+		if !isSl || sl.X != ssa.Value(p) || sl.High != nil || sl.Max != nil || sl.Low == nil {
+			continue
+		}
+		c, isC := sl.Low.(*ssa.Const)
+		if !isC || c.Value == nil || c.Value.Kind() != constant.Int || constant.Sign(c.Value) <= 0 {
+			continue
+		}
+		other := p.Edges[1-i]
+		if other == ssa.Value(p) {
+			return nil, "", false
+		}
+		if q, isPhi := other.(*ssa.Phi); isPhi && q == p {
+			return nil, "", false
+		}
+		return other, c.Value.ExactString(), true
+	}
+	return nil, "", false
+}
+
 func inductionPhi(p *ssa.Phi) (init ssa.Value, step string, ok bool) {
 	if len(p.Edges) < 2 {
 		return nil, "", false
@@ -870,6 +906,12 @@ func (b *Builder) callTermAt(v ssa.Value, c *ssa.CallCommon, at ssa.Instruction,
 	}
 	for _, a := range c.Args {
 		args = append(args, b.of(a, at, depth+1))
+	}
+	if name == "builtin.len" && len(args) == 1 && len(c.Args) == 1 {
+		if _, isCur := c.Args[0].(*ssa.Phi); isCur && args[0].Op == "slice" && len(args[0].Args) == 3 && args[0].Args[1].Op == "ind" && args[0].Args[2].Op == "none" {
+			// len(rest) of a front-consumed view is len(init) - i
+			return canonBin(&Term{Op: "bin", Name: "-", V: v, Args: []*Term{{Op: "len", Args: []*Term{args[0].Args[0]}}, args[0].Args[1]}})
+		}
 	}
 	if name == "builtin.len" || name == "builtin.cap" {
 		if name == "builtin.len" && len(args) == 1 && args[0].Op == "conv" && (args[0].Name == "[]byte" || args[0].Name == "[]uint8" || args[0].Name == "string") && len(args[0].Args) == 1 {
